@@ -6,6 +6,7 @@ import (
 	"go/constant"
 	"go/token"
 	"go/types"
+	"regexp"
 	"strings"
 )
 
@@ -76,10 +77,10 @@ func c19R1(p *Prog, r *Report) {
 			case *ast.IndexExpr:
 				sl := exprStr(x.X)
 				idx := fc.Resolve(x.Index)
-				ok = strings.HasSuffix(sl, ".clients") && (indexBoundedBy(fc, idx, sl) || c19BoundedVar(fc, x.Index, sl))
+				ok = c19ClientsField(info, x.X) && (indexBoundedBy(fc, idx, sl) || c19BoundedVar(fc, x.Index, sl))
 			case *ast.StarExpr:
 				if c, isC := ast.Unparen(x.X).(*ast.CallExpr); isC {
-					if fn := Callee(info, c); fn != nil && fn.Name() == "Load" && strings.HasSuffix(exprStr(c.Fun), ".selected.Load") {
+					if c19SelectedOp(info, c, "Load") {
 						ok = true
 					}
 				}
@@ -94,7 +95,7 @@ func c19R1(p *Prog, r *Report) {
 		for _, ctx := range allCtxs(p, fc) {
 			info := ctx.Info()
 			for _, cs := range ctx.AllCalls() {
-				if cs.Fn == nil || !strings.HasSuffix(exprStr(cs.Call.Fun), ".selected.Store") || len(cs.Call.Args) != 1 {
+				if cs.Fn == nil || !c19SelectedOp(info, cs.Call, "Store") || len(cs.Call.Args) != 1 {
 					continue
 				}
 				nStore++
@@ -104,7 +105,7 @@ func c19R1(p *Prog, r *Report) {
 					ok = true // checked at init's call sites below
 				}
 				if ue, isU := arg.(*ast.UnaryExpr); isU && ue.Op == token.AND {
-					if ix, isIx := ast.Unparen(ue.X).(*ast.IndexExpr); isIx && strings.HasSuffix(exprStr(ix.X), ".clients") {
+					if ix, isIx := ast.Unparen(ue.X).(*ast.IndexExpr); isIx && c19ClientsField(info, ix.X) {
 						if root, _, okp := pathOf(info, ix.X); okp && root == ctx.ParamObj(2) {
 							ok = true
 						}
@@ -119,7 +120,7 @@ func c19R1(p *Prog, r *Report) {
 	p.AllFuncs(pkg, func(fc *FuncCtx) {
 		info := fc.Info()
 		for _, cs := range fc.AllCalls() {
-			if cs.Fn == nil || cs.Fn.Name() != "init" || !strings.HasSuffix(exprStr(cs.Call.Fun), ".selector.init") || len(cs.Call.Args) != 1 {
+			if cs.Fn == nil || cs.Fn.Name() != "init" || len(cs.Call.Args) != 1 {
 				continue
 			}
 			if namedTypeName(recvTypeOf(cs.Fn)) != "atomicClientSelector" {
@@ -160,7 +161,7 @@ func c19R1(p *Prog, r *Report) {
 			params[fc.ParamObj(i)] = true
 		}
 		ast.Inspect(fc.Body, func(n ast.Node) bool {
-			if kv, isKV := n.(*ast.KeyValueExpr); isKV && exprStr(kv.Key) == "clients" && params[objOf(info, kv.Value)] {
+			if kv, isKV := n.(*ast.KeyValueExpr); isKV && isSliceType(info.TypeOf(kv.Value)) && params[objOf(info, kv.Value)] {
 				ok = true
 			}
 			return true
@@ -188,7 +189,7 @@ func c19R1(p *Prog, r *Report) {
 			rs := fc.G.V[ret].Node.(*ast.ReturnStmt)
 			if len(rs.Results) == 1 {
 				if c, isC := ast.Unparen(rs.Results[0]).(*ast.CallExpr); isC {
-					if sel, isS := ast.Unparen(c.Fun).(*ast.SelectorExpr); isS && sel.Sel.Name == fc.Decl.Name.Name && strings.HasSuffix(exprStr(sel.X), ".selector.Select()") {
+					if sel, isS := ast.Unparen(c.Fun).(*ast.SelectorExpr); isS && sel.Sel.Name == fc.Decl.Name.Name && c19IsSelectCall(fc.Info(), sel.X) {
 						ok = true
 					}
 				}
@@ -206,7 +207,7 @@ func c19R1(p *Prog, r *Report) {
 		}
 		var clients types.Object
 		for _, a := range cs.Call.Args {
-			if o := objOf(ainfo, a); o != nil && o.Name() == "clients" {
+			if o := objOf(ainfo, a); o != nil && isSliceType(o.Type()) {
 				clients = o
 			}
 		}
@@ -269,10 +270,7 @@ func c19R2(p *Prog, r *Report) {
 					continue
 				}
 				inner, ok := ast.Unparen(sel.X).(*ast.SelectorExpr)
-				if !ok || inner.Sel.Name != "index" {
-					continue
-				}
-				if s := info.Selections[inner]; s == nil || namedTypeName(s.Recv()) != "roundRobinClientSelector" {
+				if !ok || !c19IndexField(info, inner) {
 					continue
 				}
 				key := baseFuncName(ctx)
@@ -310,8 +308,12 @@ func c19R2(p *Prog, r *Report) {
 			if be, ok := idx.(*ast.BinaryExpr); ok && be.Op == token.REM {
 				hasAdd, nonNeg := false, false
 				ast.Inspect(be.X, func(n ast.Node) bool {
-					if c, ok := n.(*ast.CallExpr); ok && strings.HasSuffix(exprStr(c.Fun), ".index.Add") {
-						hasAdd = true
+					if c, ok := n.(*ast.CallExpr); ok {
+						if cs, ok := ast.Unparen(c.Fun).(*ast.SelectorExpr); ok && cs.Sel.Name == "Add" {
+							if in, ok := ast.Unparen(cs.X).(*ast.SelectorExpr); ok && c19IndexField(info, in) {
+								hasAdd = true
+							}
+						}
 					}
 					if b, ok := n.(*ast.BinaryExpr); ok && b.Op == token.AND {
 						if v, isC := constOf(info, b.Y); isC {
@@ -371,7 +373,7 @@ func c19R3(p *Prog, r *Report) {
 	const rule = "C19-R3"
 	r.Rule(rule, "first-best scan: in each probing loop the scan ranges over the per-client results in configuration order; the best index is (re)declared zero and the best score (re)initialised to the worst possible value inside the round (after the wait); the best is replaced only by the current index and score, only on a strict comparison in the policy's direction (more successes; lower average / lower worst latency); the score is computed from the current client's own history")
 	for _, fn := range c19ProbeFuncs {
-		fc := p.Func("clientgroups", "atomicClientSelector", fn)
+		fc := p.Inlined(p.Func("clientgroups", "atomicClientSelector", fn))
 		info := fc.Info()
 		wait, _ := c19FindWait(fc)
 		pre := "clientgroups.(*atomicClientSelector)." + fn
@@ -390,7 +392,7 @@ func c19R3(p *Prog, r *Report) {
 			if o == nil {
 				continue
 			}
-			if rhs, _, _, ok := fc.SoleDefRHS(o); ok && strings.HasPrefix(exprStr(rhs), "make(") && strings.HasSuffix(exprStr(rhs), "len(pc.clients))") && fc.G.Dominates([]int{wait}, v.ID) {
+			if rhs, _, _, ok := fc.SoleDefRHS(o); ok && c19MakePerClient(fc, rhs) && fc.G.Dominates([]int{wait}, v.ID) {
 				scan = v
 			}
 		}
@@ -528,7 +530,12 @@ func c19R3(p *Prog, r *Report) {
 					}
 				} else if init != nil {
 					s := exprStr(init)
-					if s == "pc.timeout" || strings.HasSuffix(s, "math.MaxInt64") || s == "time.Duration(math.MaxInt64)" {
+					if strings.HasSuffix(s, "math.MaxInt64") || s == "time.Duration(math.MaxInt64)" {
+						worst = true
+					}
+					// the configured timeout: a failed probe is recorded as exactly this value, so no
+					// history can average / peak above it
+					if sel, isSel := ast.Unparen(fc.Resolve(init)).(*ast.SelectorExpr); isSel && objOf(info, sel.X) == fc.ParamObj(2) && types.TypeString(info.TypeOf(sel), nil) == "time.Duration" && !c19IsTickerArg(fc, sel.Sel.Name) {
 						worst = true
 					}
 				}
@@ -620,7 +627,7 @@ func c19R4(p *Prog, r *Report) {
 	const rule = "C19-R4"
 	r.Rule(rule, "previous choice served while probing, results attributed to the right client: the new choice is stored only after the round's wg.Wait(); the stored index equals the scan's best index; wg.Add(len(pc.clients)) precedes one job per element of pc.clients; each job carries the client and the result slot of the same range index and the round number, which is incremented once per round after the wait; every job's Run defers wg.Done() before anything else")
 	for _, fn := range c19ProbeFuncs {
-		fc := p.Func("clientgroups", "atomicClientSelector", fn)
+		fc := p.Inlined(p.Func("clientgroups", "atomicClientSelector", fn))
 		info := fc.Info()
 		pre := "clientgroups.(*atomicClientSelector)." + fn
 		wait, add := c19FindWait(fc)
@@ -628,8 +635,30 @@ func c19R4(p *Prog, r *Report) {
 			r.Fail(rule, pre+":store-after-wait", p.posStr(fc.Body.Pos()), "the round has no WaitGroup Add/Wait pair: the choice is published without waiting for the round's probes")
 			continue
 		}
+		// the round's scan and its best index (as found by C19-R3)
+		var scanSlice, bestIdx types.Object
+		for _, v := range fc.G.V {
+			if v.Kind != VRange {
+				continue
+			}
+			rs := v.Stmt.(*ast.RangeStmt)
+			o := objOf(info, rs.X)
+			if o == nil {
+				continue
+			}
+			if rhs, _, _, ok := fc.SoleDefRHS(o); ok && c19MakePerClient(fc, rhs) && fc.G.Dominates([]int{wait}, v.ID) {
+				scanSlice = o
+				key := objOf(info, rs.Key)
+				for _, u := range fc.G.V {
+					as, ok := u.Node.(*ast.AssignStmt)
+					if ok && len(as.Lhs) == 1 && as.Tok == token.ASSIGN && key != nil && objOf(info, as.Rhs[0]) == key && rs.Body.Pos() <= as.Pos() && as.End() <= rs.Body.End() {
+						bestIdx = objOf(info, as.Lhs[0])
+					}
+				}
+			}
+		}
 		for _, cs := range fc.AllCalls() {
-			if !strings.HasSuffix(exprStr(cs.Call.Fun), ".selected.Store") {
+			if !c19SelectedOp(info, cs.Call, "Store") {
 				continue
 			}
 			// Store after Wait: no path from the ticker case to the store avoiding wait
@@ -642,23 +671,14 @@ func c19R4(p *Prog, r *Report) {
 				}
 			}
 			r.Check(okAfter, rule, pre+":store-after-wait", cs.Pos(), "the choice is published only after the round's wait", "the new choice can be published before all probes of the round have finished (or without a new round): a half-measured round decides, and Select does not keep serving the previous choice while probes run")
-			// the stored index is the best index
+			// the stored index is the best index: the index variable is the scan's best-index
+			// variable, or every definition of it that reaches the store copies that variable
 			okIdx := false
 			if ue, ok := ast.Unparen(cs.Call.Args[0]).(*ast.UnaryExpr); ok {
 				if ix, ok := ast.Unparen(ue.X).(*ast.IndexExpr); ok {
 					io := objOf(info, ix.Index)
-					if io != nil {
-						defs := fc.ReachingDefs(cs.V, io)
-						okIdx = len(defs) > 0
-						for _, d := range defs {
-							as, isAs := fc.G.V[d].Node.(*ast.AssignStmt)
-							if !isAs || !strings.HasPrefix(exprStr(as.Rhs[0]), "best") {
-								// the variable may be the best index itself
-								if !strings.HasPrefix(io.Name(), "best") {
-									okIdx = false
-								}
-							}
-						}
+					if io != nil && bestIdx != nil {
+						okIdx = c19CopyOf(fc, cs.V, io, bestIdx, 0)
 					}
 				}
 			}
@@ -666,9 +686,32 @@ func c19R4(p *Prog, r *Report) {
 		}
 		// wg.Add(len(pc.clients)) before sends; sends in range over pc.clients
 		okAdd := false
+		var wgObj types.Object
 		if add >= 0 {
-			c := fc.G.V[add].Node.(*ast.ExprStmt).X.(*ast.CallExpr)
-			okAdd = exprStr(c.Args[0]) == "len(pc.clients)"
+			if es, ok := fc.G.V[add].Node.(*ast.ExprStmt); ok {
+				if c, ok := es.X.(*ast.CallExpr); ok && len(c.Args) == 1 {
+					okAdd = c19LenOfClients(fc, c.Args[0])
+					if sel, ok := ast.Unparen(c.Fun).(*ast.SelectorExpr); ok {
+						wgObj = objOf(info, sel.X)
+					}
+				}
+			}
+		}
+		if wc, ok := fc.G.V[wait].Node.(*ast.ExprStmt); ok {
+			if c, ok := wc.X.(*ast.CallExpr); ok {
+				if sel, ok := ast.Unparen(c.Fun).(*ast.SelectorExpr); ok && objOf(info, sel.X) != wgObj {
+					wgObj = nil // Add and Wait on different WaitGroups
+				}
+			}
+		}
+		// the interval is the configuration's duration handed to the ticker; the timeout is the other one
+		intervalField := ""
+		for _, cs := range fc.AllCalls() {
+			if cs.Fn != nil && (cs.Fn.FullName() == "time.NewTicker" || cs.Fn.FullName() == "time.NewTimer" || cs.Fn.FullName() == "time.Tick") && len(cs.Call.Args) == 1 {
+				if sel, ok := ast.Unparen(fc.Resolve(cs.Call.Args[0])).(*ast.SelectorExpr); ok {
+					intervalField = sel.Sel.Name
+				}
+			}
 		}
 		var sendV *Vertex
 		for _, v := range fc.G.V {
@@ -678,6 +721,7 @@ func c19R4(p *Prog, r *Report) {
 			}
 		}
 		okSend := false
+		var countVar types.Object
 		if sendV != nil && add >= 0 {
 			// enclosing range over pc.clients
 			for _, v := range fc.G.V {
@@ -685,10 +729,10 @@ func c19R4(p *Prog, r *Report) {
 					continue
 				}
 				rs := v.Stmt.(*ast.RangeStmt)
-				if exprStr(rs.X) == "pc.clients" && rs.Body.Pos() <= sendV.Node.Pos() && sendV.Node.End() <= rs.Body.End() {
+				if c19ClientsField(info, fc.Resolve(rs.X)) && rs.Body.Pos() <= sendV.Node.Pos() && sendV.Node.End() <= rs.Body.End() {
 					// exactly one send per iteration: the send dominates the back edge
 					okSend = fc.G.Dominates([]int{add}, v.ID) && fc.G.Dominates([]int{v.ID}, wait)
-					lit, _ := ast.Unparen(sendV.Node.(*ast.SendStmt).Value).(*ast.CompositeLit)
+					lit, _ := ast.Unparen(fc.Resolve(sendV.Node.(*ast.SendStmt).Value)).(*ast.CompositeLit)
 					key, val := objOf(info, rs.Key), objOf(info, rs.Value)
 					var okClient, okResult, okCount, okTimeout, okWG bool
 					if lit != nil {
@@ -697,21 +741,35 @@ func c19R4(p *Prog, r *Report) {
 							if !ok {
 								continue
 							}
-							switch exprStr(kv.Key) {
+							kid, ok := kv.Key.(*ast.Ident)
+							if !ok {
+								continue
+							}
+							fld, _ := info.Uses[kid].(*types.Var)
+							if fld == nil {
+								continue
+							}
+							value := fc.Resolve(kv.Value)
+							switch c19JobRole(fld.Type()) {
 							case "client":
 								okClient = val != nil && objOf(info, kv.Value) == val
 							case "result":
-								if ue, ok := ast.Unparen(kv.Value).(*ast.UnaryExpr); ok && ue.Op == token.AND {
-									if ix, ok := ast.Unparen(ue.X).(*ast.IndexExpr); ok && key != nil && objOf(info, ix.Index) == key && exprStr(ix.X) == "probeResult" {
+								if ue, ok := ast.Unparen(value).(*ast.UnaryExpr); ok && ue.Op == token.AND {
+									if ix, ok := ast.Unparen(ue.X).(*ast.IndexExpr); ok && key != nil && objOf(info, ix.Index) == key && scanSlice != nil && objOf(info, ix.X) == scanSlice {
 										okResult = true
 									}
 								}
 							case "count":
-								okCount = exprStr(kv.Value) == "probeCount"
+								countVar = objOf(info, kv.Value)
+								okCount = countVar != nil
 							case "timeout":
-								okTimeout = exprStr(kv.Value) == "pc.timeout"
+								if sel, ok := ast.Unparen(value).(*ast.SelectorExpr); ok && objOf(info, sel.X) == fc.ParamObj(2) && intervalField != "" && sel.Sel.Name != intervalField {
+									okTimeout = true
+								}
 							case "wg":
-								okWG = exprStr(kv.Value) == "&wg"
+								if ue, ok := ast.Unparen(value).(*ast.UnaryExpr); ok && ue.Op == token.AND && wgObj != nil && objOf(info, ue.X) == wgObj {
+									okWG = true
+								}
 							}
 						}
 					}
@@ -725,7 +783,7 @@ func c19R4(p *Prog, r *Report) {
 		nInc := 0
 		okInc := true
 		for _, v := range fc.G.V {
-			if inc, ok := v.Node.(*ast.IncDecStmt); ok && exprStr(inc.X) == "probeCount" {
+			if inc, ok := v.Node.(*ast.IncDecStmt); ok && countVar != nil && objOf(info, inc.X) == countVar && inc.Tok == token.INC {
 				nInc++
 				if !fc.G.Dominates([]int{wait}, v.ID) {
 					okInc = false
@@ -736,14 +794,29 @@ func c19R4(p *Prog, r *Report) {
 				}
 			}
 		}
+		// no other write to the round counter
+		if countVar != nil {
+			for _, d := range fc.Defs(countVar) {
+				if _, isInc := fc.G.V[d].Node.(*ast.IncDecStmt); !isInc {
+					if _, isSpec := fc.G.V[d].Node.(*ast.ValueSpec); !isSpec {
+						if as, isAs := fc.G.V[d].Node.(*ast.AssignStmt); !isAs || as.Tok != token.DEFINE {
+							okInc = false
+						}
+					}
+				}
+			}
+		}
 		r.Check(nInc == 1 && okInc, rule, pre+":round-counter", p.posStr(fc.Body.Pos()), "the round number advances once per round", "the round number does not advance exactly once per completed round: history slots are overwritten or skipped")
 	}
 	for _, tn := range []string{"availabilityProbeJob", "latencyProbeJob"} {
 		fc := p.Func("clientgroups", tn, "Run")
+		jn := c19JobNorm(p, fc)
 		ok := false
 		if len(fc.Body.List) > 0 {
-			if d, isD := fc.Body.List[0].(*ast.DeferStmt); isD && strings.HasSuffix(exprStr(d.Call.Fun), ".wg.Done") {
-				ok = true
+			if d, isD := fc.Body.List[0].(*ast.DeferStmt); isD {
+				if sel, isSel := ast.Unparen(d.Call.Fun).(*ast.SelectorExpr); isSel && sel.Sel.Name == "Done" && jn(sel.X) == "recv.<wg>" {
+					ok = true
+				}
 			}
 		}
 		r.Check(ok, rule, "clientgroups.(*"+tn+").Run:done-on-every-path", p.posStr(fc.Body.Pos()), "wg.Done is deferred first", "the job does not defer wg.Done() first: a panicking or early-returning probe leaves the round waiting forever")
@@ -754,78 +827,85 @@ func c19R4(p *Prog, r *Report) {
 func c19R5(p *Prog, r *Report) {
 	const rule = "C19-R5"
 	r.Rule(rule, "history ring: each job writes the slot count mod ring-size of its own result, with the ring size equal to the storage (bits.UintSize for the uint bit ring, the array length for latencies); on the probe's err == nil edge the success bit is set / the measured time since the job's start is stored, on the other edge the same bit is cleared / the configured timeout is stored; the probe runs under the job's timeout")
+	// All expressions of a job's Run are compared after (1) resolving locals to their definitions,
+	// (2) folding constants and (3) renaming the job's fields to their roles, which are told apart
+	// by type (see c19JobRoles): names of fields, locals and receivers do not matter.
 	// availability
 	av := p.Func("clientgroups", "availabilityProbeJob", "Run")
-	ainfo := av.Info()
-	var mask types.Object
-	okMask := false
-	for _, v := range av.G.V {
-		as, ok := v.Node.(*ast.AssignStmt)
-		if !ok || len(as.Lhs) != 1 {
-			continue
-		}
-		if be, ok := ast.Unparen(as.Rhs[0]).(*ast.BinaryExpr); ok && be.Op == token.SHL {
-			mask = objOf(ainfo, as.Lhs[0])
-			s := strings.ReplaceAll(exprStr(be.Y), " ", "")
-			one := exprStr(be.X)
-			okMask = (s == "(j.count%bits.UintSize)" || s == "j.count%bits.UintSize") && (one == "uint(1)")
-		}
-	}
-	r.Check(okMask, rule, "clientgroups.(*availabilityProbeJob).Run:slot", p.posStr(av.Body.Pos()), "mask = uint(1) << (count % bits.UintSize)", "the bit for this round is not uint(1) << (count % bits.UintSize)")
-	c19Branches(p, r, rule, av, "availabilityProbeJob", func(n ast.Node, success bool) bool {
+	an := c19JobNorm(p, av)
+	uintBits := fmt.Sprint(bitsUintSize(p))
+	wantMask := "(1 << (recv.<count> % " + uintBits + "))"
+	nMask := 0
+	c19Branches(p, r, rule, av, "availabilityProbeJob", an, func(n ast.Node, success bool) bool {
 		as, ok := n.(*ast.AssignStmt)
-		if !ok || len(as.Lhs) != 1 || exprStr(as.Lhs[0]) != "*j.result" || objOf(ainfo, as.Rhs[0]) != mask || mask == nil {
+		if !ok || len(as.Lhs) != 1 || len(as.Rhs) != 1 || an(as.Lhs[0]) != "*recv.<result>" {
 			return false
 		}
+		if an(as.Rhs[0]) != wantMask {
+			return false
+		}
+		nMask++
 		if success {
 			return as.Tok == token.OR_ASSIGN
 		}
 		return as.Tok == token.AND_NOT_ASSIGN
 	})
+	r.Check(nMask > 0, rule, "clientgroups.(*availabilityProbeJob).Run:slot", p.posStr(av.Body.Pos()), "the bit written is uint(1) << (count % bits.UintSize)", "the bit for this round is not uint(1) << (count % bits.UintSize)")
 	// latency
 	lt := p.Func("clientgroups", "latencyProbeJob", "Run")
+	ln := c19JobNorm(p, lt)
 	linfo := lt.Info()
-	// ring size equals the array length
-	okSize := false
-	if fld := fieldType(lt, "result"); fld != nil {
+	// ring size equals the array length: the slot index must be count modulo the length of the
+	// array the result pointer points to
+	ringLen := int64(-1)
+	if fld := c19JobFieldType(lt, "result"); fld != nil {
 		if pt, ok := fld.Underlying().(*types.Pointer); ok {
 			if at, ok := pt.Elem().Underlying().(*types.Array); ok {
-				if c := p.Pkg("clientgroups").Types.Scope().Lookup("latencyProbeResultSize"); c != nil {
-					if k, exact := constant.Int64Val(c.(*types.Const).Val()); exact && k == at.Len() {
-						okSize = true
-					}
-				}
+				ringLen = at.Len()
 			}
 		}
 	}
-	r.Check(okSize, rule, "clientgroups.latencyProbeJob:ring-size", p.posStr(lt.Body.Pos()), "the modulus equals the array length", "the latency ring's modulus constant differs from the array length")
-	var start types.Object
+	wantSlot := fmt.Sprintf("(recv.<count> %% %d)", ringLen)
+	nSlot, nBadSlot := 0, 0
 	for _, v := range lt.G.V {
-		if as, ok := v.Node.(*ast.AssignStmt); ok && len(as.Lhs) == 1 && exprStr(as.Rhs[0]) == "time.Now()" {
-			start = objOf(linfo, as.Lhs[0])
+		as, ok := v.Node.(*ast.AssignStmt)
+		if !ok || len(as.Lhs) != 1 {
+			continue
+		}
+		if ix, ok := ast.Unparen(as.Lhs[0]).(*ast.IndexExpr); ok && ln(ix.X) == "recv.<result>" {
+			nSlot++
+			if ln(ix.Index) != wantSlot {
+				nBadSlot++
+			}
 		}
 	}
-	c19Branches(p, r, rule, lt, "latencyProbeJob", func(n ast.Node, success bool) bool {
+	r.Check(ringLen > 0 && nSlot > 0 && nBadSlot == 0, rule, "clientgroups.latencyProbeJob:ring-size", p.posStr(lt.Body.Pos()), "every write goes to slot count % (array length)", "the latency ring's modulus differs from the array length (or a write does not use count modulo the array length)")
+	c19Branches(p, r, rule, lt, "latencyProbeJob", ln, func(n ast.Node, success bool) bool {
 		as, ok := n.(*ast.AssignStmt)
-		if !ok || len(as.Lhs) != 1 || as.Tok != token.ASSIGN {
+		if !ok || len(as.Lhs) != 1 || len(as.Rhs) != 1 || as.Tok != token.ASSIGN {
 			return false
 		}
 		ix, ok := ast.Unparen(as.Lhs[0]).(*ast.IndexExpr)
-		if !ok || exprStr(ix.X) != "j.result" {
-			return false
-		}
-		idx := strings.ReplaceAll(exprStr(ix.Index), " ", "")
-		if idx != "j.count%latencyProbeResultSize" && idx != "j.count%uint(len(j.result))" {
+		if !ok || ln(ix.X) != "recv.<result>" || ln(ix.Index) != wantSlot {
 			return false
 		}
 		if success {
-			c, ok := ast.Unparen(as.Rhs[0]).(*ast.CallExpr)
-			return ok && exprStr(c.Fun) == "time.Since" && start != nil && objOf(linfo, c.Args[0]) == start && lt.SoleDefRHSIs(start, "time.Now()")
+			c, ok := ast.Unparen(lt.Resolve(as.Rhs[0])).(*ast.CallExpr)
+			if !ok || len(c.Args) != 1 {
+				return false
+			}
+			fn := Callee(linfo, c)
+			if fn == nil || fn.FullName() != "time.Since" {
+				return false
+			}
+			start := objOf(linfo, c.Args[0])
+			return start != nil && lt.SoleDefRHSIs(start, "time.Now()")
 		}
-		return exprStr(as.Rhs[0]) == "j.timeout"
+		return ln(as.Rhs[0]) == "recv.<timeout>"
 	})
 	// probes run under the timeout
 	for _, fc := range []*FuncCtx{av, lt} {
+		jn := c19JobNorm(p, fc)
 		ok := false
 		for _, cs := range fc.AllCalls() {
 			if cs.Fn == nil || cs.Fn.Pkg() == nil || cs.Fn.Pkg().Path() != "context" {
@@ -833,9 +913,17 @@ func c19R5(p *Prog, r *Report) {
 			}
 			switch cs.Fn.Name() {
 			case "WithTimeout":
-				ok = exprStr(cs.Call.Args[1]) == "j.timeout"
+				ok = jn(cs.Call.Args[1]) == "recv.<timeout>"
 			case "WithDeadline":
-				ok = strings.HasSuffix(exprStr(cs.Call.Args[1]), ".Add(j.timeout)")
+				// <a time.Now() value>.Add(timeout)
+				if c, isC := ast.Unparen(fc.Resolve(cs.Call.Args[1])).(*ast.CallExpr); isC && len(c.Args) == 1 {
+					if fn := Callee(fc.Info(), c); fn != nil && fn.FullName() == "(time.Time).Add" && jn(c.Args[0]) == "recv.<timeout>" {
+						sel := ast.Unparen(c.Fun).(*ast.SelectorExpr)
+						if o := objOf(fc.Info(), sel.X); o != nil && fc.SoleDefRHSIs(o, "time.Now()") {
+							ok = true
+						}
+					}
+				}
 			}
 		}
 		r.Check(ok, rule, "clientgroups."+fc.Name+":runs-under-timeout", p.posStr(fc.Body.Pos()), "the probe's context expires after the job's timeout", "the probe is not bounded by the configured timeout")
@@ -872,10 +960,10 @@ func (fc *FuncCtx) SoleDefRHSIs(obj types.Object, s string) bool {
 
 // c19Branches: the probe call's err == nil edge leads to a success write, the other edge to
 // a failure write, and every path from the probe to exit performs exactly the edge's write.
-func c19Branches(p *Prog, r *Report, rule string, fc *FuncCtx, tn string, isWrite func(n ast.Node, success bool) bool) {
+func c19Branches(p *Prog, r *Report, rule string, fc *FuncCtx, tn string, jn func(ast.Expr) string, isWrite func(n ast.Node, success bool) bool) {
 	var probe *CallSite
 	for _, cs := range fc.AllCalls() {
-		if strings.HasSuffix(exprStr(cs.Call.Fun), ".probe") {
+		if cs.Fn == nil && jn(cs.Call.Fun) == "recv.<probe>" {
 			c := cs
 			probe = &c
 		}
@@ -886,7 +974,7 @@ func c19Branches(p *Prog, r *Report, rule string, fc *FuncCtx, tn string, isWrit
 		return
 	}
 	info := fc.Info()
-	okClient := len(probe.Call.Args) == 2 && exprStr(probe.Call.Args[1]) == "j.client"
+	okClient := len(probe.Call.Args) == 2 && jn(probe.Call.Args[1]) == "recv.<client>"
 	_ = info
 	r.Check(okClient, rule, pre+":probes-own-client", probe.Pos(), "probes j.client", "the job does not probe its own client")
 	for _, side := range []struct {
@@ -999,4 +1087,240 @@ func c19R6(p *Prog, r *Report) {
 		r.Check(nNil == 1 && len(need) >= want, rule, pre+":one-success-return", p.posStr(fc.Body.Pos()), fmt.Sprintf("one success return, %d conditions", len(need)), fmt.Sprintf("%d success returns, %d of at least %d success conditions recognised", nNil, len(need), want))
 	}
 	r.Floor(rule, 12)
+}
+
+// Role predicates by type: the rules do not depend on the names of fields and locals.
+
+func isSliceType(t types.Type) bool {
+	if t == nil {
+		return false
+	}
+	_, ok := t.Underlying().(*types.Slice)
+	return ok
+}
+
+func c19FieldOf(info *types.Info, e ast.Expr) (owner string, f *types.Var) {
+	sel, ok := ast.Unparen(e).(*ast.SelectorExpr)
+	if !ok {
+		return "", nil
+	}
+	s := info.Selections[sel]
+	if s == nil || s.Kind() != types.FieldVal {
+		return "", nil
+	}
+	v, _ := s.Obj().(*types.Var)
+	return namedTypeName(s.Recv()), v
+}
+
+// c19ClientsField: e selects the slice-typed field of a selector or of the probe configuration
+// (the group's client list).
+func c19ClientsField(info *types.Info, e ast.Expr) bool {
+	owner, f := c19FieldOf(info, e)
+	return f != nil && isSliceType(f.Type()) && (strings.HasSuffix(owner, "ClientSelector") || owner == "probeConfig")
+}
+
+// c19SelectedOp: call is the named method of the atomic.Pointer field of atomicClientSelector.
+func c19SelectedOp(info *types.Info, call *ast.CallExpr, name string) bool {
+	if !isAtomicPointerOp(Callee(info, call), name) {
+		return false
+	}
+	sel, ok := ast.Unparen(call.Fun).(*ast.SelectorExpr)
+	if !ok {
+		return false
+	}
+	owner, f := c19FieldOf(info, sel.X)
+	return f != nil && owner == "atomicClientSelector"
+}
+
+// c19IndexField: e selects the atomic.Uintptr field of roundRobinClientSelector (the turn counter).
+func c19IndexField(info *types.Info, e ast.Expr) bool {
+	owner, f := c19FieldOf(info, e)
+	return f != nil && owner == "roundRobinClientSelector" && types.TypeString(f.Type(), nil) == "sync/atomic.Uintptr"
+}
+
+// c19IsSelectCall: e is a call of a *ClientSelector's Select method.
+func c19IsSelectCall(info *types.Info, e ast.Expr) bool {
+	c, ok := ast.Unparen(e).(*ast.CallExpr)
+	if !ok {
+		return false
+	}
+	fn := Callee(info, c)
+	return fn != nil && fn.Name() == "Select" && strings.HasSuffix(namedTypeName(recvTypeOf(fn)), "ClientSelector")
+}
+
+// c19MakePerClient: rhs is make(T, len(<the probe configuration's client list>)).
+func c19MakePerClient(fc *FuncCtx, rhs ast.Expr) bool {
+	c, ok := ast.Unparen(rhs).(*ast.CallExpr)
+	if !ok || len(c.Args) != 2 {
+		return false
+	}
+	if id, ok := ast.Unparen(c.Fun).(*ast.Ident); !ok || id.Name != "make" {
+		return false
+	}
+	return c19LenOfClients(fc, c.Args[1])
+}
+
+// c19LenOfClients: e is len(<the client list>), possibly through a local (n := len(pc.clients)).
+func c19LenOfClients(fc *FuncCtx, e ast.Expr) bool {
+	l, ok := ast.Unparen(fc.Resolve(e)).(*ast.CallExpr)
+	if !ok || len(l.Args) != 1 {
+		return false
+	}
+	if id, ok := ast.Unparen(l.Fun).(*ast.Ident); !ok || id.Name != "len" {
+		return false
+	}
+	return c19ClientsField(fc.Info(), fc.Resolve(l.Args[0]))
+}
+
+// c19JobRole tells a probe job's fields apart by type: the WaitGroup pointer, the probe function,
+// the timeout, the client (the type parameter), the result pointer and the round counter.
+func c19JobRole(t types.Type) string {
+	switch u := t.(type) {
+	case *types.TypeParam:
+		return "client"
+	case *types.Pointer:
+		if types.TypeString(u.Elem(), nil) == "sync.WaitGroup" {
+			return "wg"
+		}
+		return "result"
+	case *types.Signature:
+		return "probe"
+	}
+	if types.TypeString(t, nil) == "time.Duration" {
+		return "timeout"
+	}
+	if b, ok := t.Underlying().(*types.Basic); ok && b.Info()&types.IsInteger != 0 {
+		return "count"
+	}
+	return ""
+}
+
+func c19JobStruct(fc *FuncCtx) *types.Struct {
+	recv := fc.RecvObj()
+	if recv == nil {
+		return nil
+	}
+	t := recv.Type()
+	if pt, ok := t.Underlying().(*types.Pointer); ok {
+		t = pt.Elem()
+	}
+	st, _ := t.Underlying().(*types.Struct)
+	return st
+}
+
+// c19JobFieldType returns the type of the job field playing the given role.
+func c19JobFieldType(fc *FuncCtx, role string) types.Type {
+	st := c19JobStruct(fc)
+	if st == nil {
+		return nil
+	}
+	for i := 0; i < st.NumFields(); i++ {
+		if c19JobRole(st.Field(i).Type()) == role {
+			return st.Field(i).Type()
+		}
+	}
+	return nil
+}
+
+// c19JobNorm returns the normaliser for expressions of a job method: locals resolved, constants
+// folded, the receiver written "recv" and each of its fields written "<role>".
+func c19JobNorm(p *Prog, fc *FuncCtx) func(ast.Expr) string {
+	st := c19JobStruct(fc)
+	type fr struct {
+		re *regexp.Regexp
+		to string
+	}
+	var subs []fr
+	if st != nil {
+		seen := map[string]bool{}
+		for i := 0; i < st.NumFields(); i++ {
+			role := c19JobRole(st.Field(i).Type())
+			if role == "" || seen[role] {
+				role = "?" + st.Field(i).Name() // ambiguous or unknown: never matches a pattern
+			}
+			seen[role] = true
+			subs = append(subs, fr{regexp.MustCompile(`recv\.` + regexp.QuoteMeta(st.Field(i).Name()) + `\b`), "recv.<" + role + ">"})
+		}
+	}
+	return func(e ast.Expr) string {
+		s := normExpr(p, fc, e)
+		for _, x := range subs {
+			s = x.re.ReplaceAllString(s, x.to)
+		}
+		return s
+	}
+}
+
+// bitsUintSize: math/bits.UintSize on the analysed platform.
+func bitsUintSize(p *Prog) int64 {
+	for _, pkg := range p.All {
+		if pkg.PkgPath == "math/bits" && pkg.Types != nil {
+			if c, ok := pkg.Types.Scope().Lookup("UintSize").(*types.Const); ok {
+				if k, exact := constant.Int64Val(c.Val()); exact {
+					return k
+				}
+			}
+		}
+	}
+	return 64
+}
+
+// c19CopyOf: at vertex `at`, obj is target itself or every definition of obj reaching `at` is a
+// plain copy (x = y / x := y) of a variable that is, at that definition, a copy of target.
+func c19CopyOf(fc *FuncCtx, at int, obj, target types.Object, depth int) bool {
+	if obj == target {
+		return true
+	}
+	if depth > 4 {
+		return false
+	}
+	info := fc.Info()
+	defs := fc.ReachingDefs(at, obj)
+	if len(defs) == 0 {
+		return false
+	}
+	for _, d := range defs {
+		if d == fc.G.Entry {
+			return false
+		}
+		var rhs ast.Expr
+		switch n := fc.G.V[d].Node.(type) {
+		case *ast.AssignStmt:
+			if len(n.Lhs) != len(n.Rhs) {
+				return false
+			}
+			for i, l := range n.Lhs {
+				if objOf(info, l) == obj {
+					rhs = n.Rhs[i]
+				}
+			}
+		case *ast.ValueSpec:
+			for i, id := range n.Names {
+				if info.Defs[id] == obj && i < len(n.Values) {
+					rhs = n.Values[i]
+				}
+			}
+		}
+		if rhs == nil {
+			return false
+		}
+		src := objOf(info, rhs)
+		if src == nil || !c19CopyOf(fc, d, src, target, depth+1) {
+			return false
+		}
+	}
+	return true
+}
+
+// c19IsTickerArg: the configuration field of that name is the one handed to time.NewTicker (the
+// probing interval, as opposed to the per-probe timeout).
+func c19IsTickerArg(fc *FuncCtx, field string) bool {
+	for _, cs := range fc.AllCalls() {
+		if cs.Fn != nil && (cs.Fn.FullName() == "time.NewTicker" || cs.Fn.FullName() == "time.NewTimer" || cs.Fn.FullName() == "time.Tick") && len(cs.Call.Args) == 1 {
+			if sel, ok := ast.Unparen(fc.Resolve(cs.Call.Args[0])).(*ast.SelectorExpr); ok && sel.Sel.Name == field {
+				return true
+			}
+		}
+	}
+	return false
 }
